@@ -273,6 +273,21 @@ def run_project(col):
     col.add("C19.O5", "tools.project system matrix", "A == int N_a N_b dV with the region's own dV (unit diagonal for points without cells)", not badA, "; ".join(badA))
     col.add("C19.O5", "tools.project right-hand side", "b[:, k] == int N_a values_k dV for every component k", not badb, "; ".join(badb))
     col.add("C19.O5", "tools.project result", "the solver's solution is returned reshaped (points, components)", res.shape == (4, 2) and is_zero(P(res[1, 1]) - sym("x[1,1]")))
+    # the optional argument dV (deformed volumes, volumes of a sub-domain, ...) replaces the region's differential volumes on *both* sides
+    DV = symarray("DV", ra.dV.shape)
+    it.call(proj, [vals, ra], dict(dV=DV))
+    keep = ra.dV
+    ra.dV = DV
+    try:
+        A2 = ref_bilinear(ra, ra, 1, 1, lambda i, J, k, L, q, c: ONE, False, False)
+        b2 = np.concatenate([ref_linear(ra, 1, (lambda k: lambda i, J, q, c: vals[k, q, c])(k), False) for k in range(2)], axis=1)
+    finally:
+        ra.dV = keep
+    for p in ra.mesh.points_without_cells:
+        A2[p, p] = ONE
+    badA2, badb2 = diff_dense(solved.get("A"), A2), diff_dense(solved.get("b"), b2)
+    col.add("C19.O5", "tools.project with given dV", "A == int N_a N_b dV and b == int N_a values dV with the *given* differential volumes on both sides (fixed point and integral preservation w.r.t. that measure)",
+            not badA2 and not badb2, "tools/_project.py project: matrix %s; right-hand side %s" % ("; ".join(badA2[:2]), "; ".join(badb2[:2])))
     # fixed point: for values interpolated from nodal data d with the same basis, b == A d (at points with cells)
     dn = symarray("d", (4,))
     vq = np.empty((1, 2, 2), dtype=object)
